@@ -42,6 +42,29 @@ var c02Shapes = []string{
 	"set p to pattern any find all (p = x 'b') or (p 'c')",
 }
 
+// captures that enclose a recursive call of the subroutine they live in, sibling captures with a choice
+// point inside the first one, captures around calls (need 4-byte witnesses)
+var c02Deep = []string{
+	"find all {('a' maybe s 'b') = x} = s",
+	"find all {'a' (maybe s) = x 'b'} = s",
+	"find all {('a' (s or 'c')) = x 'b'} = s",
+	"find all {'a' = x maybe s 'b' = y} = s",
+	"find all (at least 1 'a') = x ('b') = y 'c'",
+	"find all (maybe 'a' 'b') = x (any) = y 'c'",
+	"find all (at least 1 letter) = k '=' (at least 1 digit) = v",
+	"find all ((any = x) (any = y)) = z 'c'",
+	"find all {any = x} = s (s = y) x",
+}
+
+func VerifC02DeepCount() int { return len(c02Deep) }
+
+func VerifC02Deep(shape int, T int) {
+	saved := c02Shapes
+	c02Shapes = c02Deep
+	defer func() { c02Shapes = saved }()
+	VerifC02(shape, T, 0, 0)
+}
+
 func VerifC02Count() int { return len(c02Shapes) }
 
 func VerifC02(shape int, T int, symLits int, twin int) {
